@@ -183,11 +183,38 @@ def getattr_obj(I, obj, ty, name):
             return BoundMethod(cls, mem, owner)
         return BoundMethod(obj, mem, owner)
     if isinstance(mem, tuple) and mem[0] == "attr":
+        shared = _class_level_state(I, owner, name, mem[1])
+        if shared is not None:
+            return shared
         fr = Frame(None, {}, [], owner.module)
         return I.eval(fr, mem[1])
     if isinstance(mem, tuple) and mem[0] == "external":
         return I.B.external_member(I, obj, owner, name)
     raise _attr_error(I, obj, name)
+
+
+def _class_level_state(I, owner, name, expr):
+    """a class attribute initialised with a mutable container ({} / [] / set() / dict() ...) is state shared by all instances and all
+    earlier calls: on entry its content is ARBITRARY (any history), not the initial literal"""
+    ctx = I.ctx
+    kind = None
+    if isinstance(expr, ast.Dict) or (isinstance(expr, ast.Call) and ast.unparse(expr.func) in ("dict", "collections.OrderedDict", "OrderedDict", "defaultdict", "collections.defaultdict")):
+        kind = "dict"
+    elif isinstance(expr, ast.List) or (isinstance(expr, ast.Call) and ast.unparse(expr.func) == "list"):
+        kind = "list"
+    if kind is None:
+        return None
+    key = ("class-state", owner.key, name)
+    if key not in ctx.ghost:
+        ty = TMap(val=TAny(), key=TAny()) if kind == "dict" else TSeq(TAny(), "list")
+        t = z3.Const("classattr_%s_%s" % (owner.name, name), Z.Val)
+        sv = ctx.typed(t, ty)
+        ctx.assume(z3.And(Z.is_refv(t), Z.Val.id(t) > 0, Z.Val.id(t) < ctx.alloc0))
+        ctx.assume_class(t, ty)
+        ctx.touch(sv)
+        ctx.note("class attribute %s.%s is mutable state shared across calls: its content on entry is arbitrary" % (owner.key, name))
+        ctx.ghost[key] = sv
+    return ctx.ghost[key]
 
 
 def getattr_class(I, cls, name):
